@@ -152,6 +152,7 @@ type vc36Resp struct {
 	p       peer.ID
 	c       cid.Cid
 	kind    byte // 'B', 'H', 'D'
+	a       int64 // start of the envelope's window
 	sentEnd int64
 }
 
@@ -646,7 +647,7 @@ func (w *vc36World) process(env *Envelope, a int64) {
 		u := w.byCid[c]
 		line = append(line, "BLOCK "+w.name(c))
 		w.nBlocks++
-		newResps = append(newResps, vc36Resp{p: p, c: c, kind: 'B'})
+		newResps = append(newResps, vc36Resp{p: p, c: c, kind: 'B', a: a})
 		if u == nil {
 			k.Fail("block-foreign-cid", "block CIDs come from wants", "a CID of the universe", c.String())
 			continue
@@ -674,7 +675,7 @@ func (w *vc36World) process(env *Envelope, a int64) {
 		case pb.Message_Have:
 			line = append(line, "HAVE "+u.name)
 			w.nHaves++
-			newResps = append(newResps, vc36Resp{p: p, c: c, kind: 'H'})
+			newResps = append(newResps, vc36Resp{p: p, c: c, kind: 'H', a: a})
 			if !w.stl(u.mhKey).possibly(true, a, b) {
 				k.Fail("have-absent", "HAVE only for present blocks", u.name+" stored at some instant of "+win, "store time-line "+w.storeTL[u.mhKey].String())
 			}
@@ -687,7 +688,7 @@ func (w *vc36World) process(env *Envelope, a int64) {
 		case pb.Message_DontHave:
 			line = append(line, "DONT_HAVE "+u.name)
 			w.nDontHaves++
-			newResps = append(newResps, vc36Resp{p: p, c: c, kind: 'D'})
+			newResps = append(newResps, vc36Resp{p: p, c: c, kind: 'D', a: a})
 			if !w.wtl(p, c).possibly(true, a, b) {
 				k.Fail("donthave-unwanted"+w.unwantedFeatureK(p, c, a, false), "DONT_HAVE only when the peer asked for the CID", fmt.Sprintf("%s wanted by %s at some instant of %s", u.name, pn(p), win), "want time-line "+w.wtl(p, c).String())
 			}
@@ -1211,6 +1212,21 @@ func (w *vc36World) checkAnswered() {
 			typ := "want-block"
 			if g.typ == pb.Message_Wantlist_Have {
 				typ = "want-have"
+			}
+			if present && f == "" {
+				// Input feature: when the last want arrived, a DONT_HAVE and a HAVE for
+				// this CID were both in flight to the peer (two active tasks whose
+				// properties taskMerger.HasNewInfo adds up).
+				inD, inH := false, false
+				for _, r := range w.resps {
+					if r.p == p && r.c == c && r.a < last.ev.start && r.sentEnd > last.ev.end {
+						inD = inD || r.kind == 'D'
+						inH = inH || r.kind == 'H'
+					}
+				}
+				if inD && inH {
+					f = "/dont-have-and-have-in-flight"
+				}
 			}
 			if present {
 				var seen []string
